@@ -97,6 +97,41 @@ Theorem rhs_text_example :
 Proof. vm_compute. reflexivity. Qed.
 Print Assumptions rhs_text_example.
 
+(* rows holding ODE-modifier terms " + (fact) * y[..]*y[..]": the factor is arbitrary user text; whenever every
+   factor of the row parses on its own as a C expression (facts_parse, decidable and evaluated on every generated
+   row), the whole row parses - for ALL term lists and ALL factor texts - to the left-nested sum in which each
+   factor appears as the very expression it parses to (the parentheses do their job whatever the factor is: this
+   rests on the frame property of the parser, Proofs/ParserFrame.pcond_frame, and of the lexer,
+   Proofs/LexerFrame.lex_paren), and the value of the row is the mass-action law plus the modifier sum, each
+   factor valued as its own expression (arrays and + - * read as in C, every other form by an arbitrary [atom]) *)
+From Naunet Require Import Proofs.ModTextProofs.
+Theorem rhs_text_with_modifiers_is_law :
+  forall (R : Type) (rO rI : R) (radd rmul rsub : R -> R -> R) (ropp : R -> R),
+  ring_theory rO rI radd rmul rsub ropp (@eq R) ->
+  forall (E : env R) (atom : ex -> R) (i : ode_input) (s : nat) (gs : list gterm),
+  atom (ELit zero_lit) = rO ->
+  (forall f, e_f R E f = fact_val R rO radd rmul rsub E atom f) ->
+  wf_input i -> s < i_nspec i -> gterms_of true (rhs_row i s) = Some gs -> facts_parse gs = true ->
+  exists e, parse (grhs_txt gs) = Some e /\
+            denG R rO radd rmul rsub E atom e =
+            radd (ma_sum R rO rI radd rmul rsub E s 0 (i_rxns i)) (mod_sum R rO rI radd rmul ropp E s (i_mods i)).
+Proof. intros R rO rI radd rmul rsub ropp Rth. exact (rhs_mod_text_lemma R rO rI radd rmul rsub ropp Rth). Qed.
+Print Assumptions rhs_text_with_modifiers_is_law.
+
+(* non-vacuity: a reaction term and the modifier factor "-1.0 + nH" *)
+Theorem rhs_text_with_modifiers_example :
+  let gs := [GR {| tt_neg := true; tt_arr := AK; tt_idx := 0; tt_spaced := false; tt_vars := [0; 1] |};
+             GM true "-1.0 + nH" [1; 2]] in
+  facts_parse gs = true /\
+  parse (grhs_txt gs) =
+  Some (EBin "+"%char
+          (EBin "-"%char (ELit zero_lit)
+             (EBin "*"%char (EBin "*"%char (EIdx (arr_name AK) (EMag 0)) (EIdx (arr_name AY) (EName 0))) (EIdx (arr_name AY) (EName 1))))
+          (EBin "*"%char (EBin "*"%char (EBin "+"%char (ENeg (ELit (chars "1.0"))) (EVar (chars "nH")))
+                            (EIdx (arr_name AY) (EName 1))) (EIdx (arr_name AY) (EName 2)))).
+Proof. exact mod_row_example. Qed.
+Print Assumptions rhs_text_with_modifiers_example.
+
 (* the generated additions are exactly those of the assembly loops (refinement) *)
 Theorem assembly_refines : forall i : ode_input,
   st_rhs (ode_terms i) = apply_adds (rhs_adds i) (repeat [] (n_eqns i)) /\
